@@ -109,6 +109,9 @@ class BGP(protocol.Protocol):
         Starts the initial negotiation of the protocol
         """
         self.init_rib()
+        # the capabilities of the peer are those of the session on this connection:
+        # forget what an earlier session learned, so that it cannot influence our OPEN
+        cfg.CONF.bgp.running_config['capability']['remote'] = {}
         # Set transport socket options
         self.transport.setTcpNoDelay(True)
         # set tcp option if you want
